@@ -203,6 +203,9 @@ pub struct CmdModel {
     pub act_index: Option<usize>,
     /// C15 probe program
     pub probe: bool,
+    /// contradiction program whose shim reports the failed call with finish_error: when that
+    /// call succeeds the client is owed these units
+    pub recover: Option<Vec<ExpUnit>>,
 }
 
 #[derive(Clone, Debug)]
@@ -489,6 +492,57 @@ pub fn ret_err_reached(p: &Program) -> Option<u32> {
     }
 }
 
+/// expected reply of a contradiction program that recovers with finish_error: everything before
+/// the contradicting unit, the rows before the contradicting row, then the error
+pub fn recover_units(p: &Program) -> Option<Vec<ExpUnit>> {
+    let mut out = Vec::new();
+    for u in &p.units {
+        match u {
+            Unit::Count { affected, last_id } => out.push(ExpUnit::Ok {
+                affected: *affected,
+                last_id: *last_id,
+                more: true,
+            }),
+            Unit::Rows(r) => {
+                if let (Some(c), Some((kind, msg))) = (&r.contra, &r.recover) {
+                    let row = match c {
+                        Contra::TooFewCols { row }
+                        | Contra::TooManyCols { row, .. }
+                        | Contra::NullIntoNotNull { row, .. }
+                        | Contra::WrongKind { row, .. } => *row as usize,
+                    };
+                    out.push(ExpUnit::Rows {
+                        cols: r.cols.clone(),
+                        rows: r.rows[..row.min(r.rows.len())].to_vec(),
+                        term: ExpTerm::Err {
+                            kind: *kind,
+                            msg: msg.to_vec(),
+                        },
+                    });
+                    return Some(out);
+                }
+                if r.contra.is_some() {
+                    return None;
+                }
+                if r.cols.is_empty() {
+                    out.push(ExpUnit::Ok {
+                        affected: ended_rows(r),
+                        last_id: 0,
+                        more: true,
+                    });
+                } else {
+                    out.push(ExpUnit::Rows {
+                        cols: r.cols.clone(),
+                        rows: r.rows.clone(),
+                        term: ExpTerm::Eof { more: true },
+                    });
+                }
+            }
+        }
+    }
+    None
+}
+
 fn program_has_contra(p: &Program) -> bool {
     p.units.iter().any(|u| match u {
         Unit::Rows(r) => match &r.contra {
@@ -565,6 +619,7 @@ pub fn build(plan: &Plan) -> Model {
             expect_api_err: false,
             act_index: None,
             probe: false,
+            recover: None,
         };
         // client-side type knowledge is tracked even for dead commands (the encoder needs it)
         match &c.kind {
@@ -764,7 +819,7 @@ pub fn build(plan: &Plan) -> Model {
         }
         cmds.push(m);
     }
-    let end = if hostile || cmds.iter().any(|c| c.probe) {
+    let end = if hostile || cmds.iter().any(|c| c.probe || c.recover.is_some()) {
         EndOfConn::Any
     } else {
         ended.unwrap_or(EndOfConn::Ok)
@@ -795,8 +850,14 @@ fn apply_act(m: &mut CmdModel, act: &Act, acts: &mut Vec<Act>, default_on_init: 
                 m.ends = Some(EndOfConn::Token(tok));
             } else if program_has_contra(p) {
                 m.reply = Reply::Unconstrained;
-                m.ends = Some(EndOfConn::IoErr);
                 m.expect_api_err = true;
+                match recover_units(p) {
+                    // whether finish_error can still be sent is up to the tree; if it reports
+                    // success the reply is judged (judge::o_recover), otherwise the error ends
+                    // the connection
+                    Some(units) => m.recover = Some(units),
+                    None => m.ends = Some(EndOfConn::IoErr),
+                }
             } else if p.probe_cells {
                 // the reply is decoded by grammar but judged by the C15 oracle; whether the
                 // connection survives depends on what the tree refuses
